@@ -37,5 +37,19 @@ def extra(ctx):
             "what": "C12_session_keys_code fails: the session table is no longer keyed the way Model/Session.v says (map by the cookie string "
                     "as sent on both the check and the removal side, bucket by its hex decoding): " + why + " (see C12_key_slips_refuted)",
             "detail": sk, "finding_key": "session-keys:" + ",".join(badk), "failing_input_found": False})
+    lm = (json.load(open(gen)).get("limiter")) or {}
+    lflags = ["cond_both_positive", "built_from_config", "reaches_auth", "ctor_stores_params", "ttl_is_one_minute"]
+    ctx.extra_coverage["limiter_construction"] = dict({k: lm.get(k) for k in lflags}, cond=lm.get("cond"), at=lm.get("pos"))
+    ctx.extra_obligations += len(lflags)
+    badl = [k for k in lflags if not (lm.get("found") and lm.get(k))]
+    ctx.extra_discharged += len(lflags) - len(badl)
+    if badl:
+        why = "; ".join(lm.get("notes") or []) or "the idiom of initUsers / InitAuth / newAuthRateLimiter was not recognised"
+        ctx.failures.insert(0, {
+            "kind": "proof",
+            "what": "C12_limiter_construction_code fails: home.go initUsers no longer builds the login limiter the way Model/RateLimit.v mk_limiter says "
+                    "(present iff auth_attempts > 0 and block_auth_min > 0, block_auth_min minutes, auth_attempts as the limit, stored in Auth.rateLimiter): "
+                    + why + " (see C12_limiter_condition_slip_refuted for what a narrower condition allows)",
+            "detail": lm, "finding_key": "limiter-construction:" + ",".join(badl), "failing_input_found": False})
     ctx.trusted.append("tools/routes (go/types): reads the arguments of rateLimiter.check / newCookie / inc / remove off handleLogin and "
                        "newCookie; an unrecognised idiom yields None, which C12_limiter_keys_code rejects")
